@@ -147,34 +147,44 @@ func (t *tnode) coq(outDir string) string {
 // ---------------------------------------------------------------------------------------------
 // scenarios
 
+// one retrieve attempt (into an empty output directory) on the entry a scenario's store left
+type retr struct {
+	GetFault string `json:"get_fault,omitempty"` // http: "" | status | cut-length | cut-chunked | cut-close
+	GetCut   int    `json:"get_cut,omitempty"`   // offset into the stored (gzip) body
+	RetrCut  int    `json:"retr_cut"`            // cmd: the command emits this many bytes; -1: the whole entry
+	RetrExit int    `json:"retr_exit,omitempty"` // cmd: exit status of the retrieve command
+}
+
 type scenario struct {
 	Cache string   `json:"cache"` // http | cmd
 	Files []*tnode `json:"files"`
 	// http
 	PutFault string `json:"put_fault,omitempty"` // "" | abort | status
-	GetFault string `json:"get_fault,omitempty"` // "" | status | cut-length | cut-chunked | cut-close
-	GetCut   int    `json:"get_cut,omitempty"`   // offset into the stored (gzip) body
 	// cmd
 	StoreStyle string `json:"store_style,omitempty"` // plain | atomic | pipe | pipe-atomic | exec | head-fail | atomic-head-fail
 	StoreHead  int    `json:"store_head,omitempty"`
-	RetrCut    int    `json:"retr_cut"` // -1: whole entry
-	RetrExit   int    `json:"retr_exit,omitempty"`
+	Retrs      []retr `json:"retrieves"`
 	Why        string `json:"why,omitempty"`
 }
 
-type observed struct {
-	Stored      bool              `json:"stored"`
-	StoredLen   int               `json:"stored_len"` // tar bytes held under the key
-	Footer      bool              `json:"footer"`     // ... ending in the two zero blocks
-	Members     []string          `json:"members"`
-	Hit         bool              `json:"hit"`
-	Disk        map[string]string `json:"disk"` // path -> description, for the report
-	diskCoq     []string
-	Complete    bool   `json:"complete"` // every declared output is back, exactly
-	Incomplete  string `json:"incomplete,omitempty"`
-	tarCut      int    // http GetCut: tar bytes that decompress before the error
-	tarCutValid bool
+type retrObs struct {
+	Hit        bool              `json:"hit"`
+	Disk       map[string]string `json:"disk"` // path -> description, for the report
+	diskCoq    []string
+	Complete   bool   `json:"complete"` // every declared output is back, exactly
+	Incomplete string `json:"incomplete,omitempty"`
+	tarCut     int    // http GetCut: tar bytes that decompress before the error
 }
+
+type observed struct {
+	Stored    bool       `json:"stored"`
+	StoredLen int        `json:"stored_len"` // tar bytes held under the key
+	Footer    bool       `json:"footer"`     // ... ending in the two zero blocks
+	Members   []string   `json:"members"`
+	R         []*retrObs `json:"retrieves"`
+}
+
+var whole = retr{RetrCut: -1}
 
 func allHealthy(files []*tnode) bool {
 	for _, f := range files {
@@ -196,6 +206,7 @@ type worker struct {
 	mu     sync.Mutex
 	blobs  map[string][]byte
 	plan   *scenario
+	rplan  retr
 }
 
 func newWorker(root string, id int) *worker {
@@ -210,7 +221,7 @@ func newWorker(root string, id int) *worker {
 
 func (w *worker) serve(rw http.ResponseWriter, r *http.Request) {
 	w.mu.Lock()
-	sc := w.plan
+	sc, rt := w.plan, w.rplan
 	w.mu.Unlock()
 	switch r.Method {
 	case http.MethodPut:
@@ -239,8 +250,8 @@ func (w *worker) serve(rw http.ResponseWriter, r *http.Request) {
 			rw.WriteHeader(http.StatusNotFound)
 			return
 		}
-		cut := min(sc.GetCut, len(b))
-		switch sc.GetFault {
+		cut := min(rt.GetCut, len(b))
+		switch rt.GetFault {
 		case "status":
 			rw.WriteHeader(http.StatusForbidden)
 			rw.Write([]byte("no"))
@@ -272,7 +283,7 @@ func (w *worker) serve(rw http.ResponseWriter, r *http.Request) {
 
 func sq(s string) string { return "'" + strings.ReplaceAll(s, "'", `'\''`) + "'" }
 
-func (w *worker) commands(sc *scenario) (string, string) {
+func (w *worker) commands(sc *scenario, r retr) (string, string) {
 	f := sq(w.store) + `/"$CACHE_KEY"`
 	tmp := sq(w.store) + `/"$CACHE_KEY".tmp`
 	var st string
@@ -295,11 +306,11 @@ func (w *worker) commands(sc *scenario) (string, string) {
 		panic("store style " + sc.StoreStyle)
 	}
 	rt := "cat " + f
-	if sc.RetrCut >= 0 {
-		rt = fmt.Sprintf("test -f %s && head -c %d %s", f, sc.RetrCut, f)
+	if r.RetrCut >= 0 {
+		rt = fmt.Sprintf("head -c %d %s", r.RetrCut, f)
 	}
-	if sc.RetrExit != 0 {
-		rt = fmt.Sprintf("%s; exit %d", rt, sc.RetrExit)
+	if r.RetrExit != 0 {
+		rt = fmt.Sprintf("%s; exit %d", rt, r.RetrExit)
 	}
 	return st, rt
 }
@@ -307,7 +318,7 @@ func (w *worker) commands(sc *scenario) (string, string) {
 func (w *worker) run(idx int, sc *scenario) *observed {
 	key := []byte(fmt.Sprintf("key-%06d", idx))
 	hexKey := hex.EncodeToString(key)
-	ob := &observed{Disk: map[string]string{}}
+	ob := &observed{}
 	must(os.RemoveAll(w.outDir))
 	must(os.MkdirAll(w.outDir, 0o755))
 	names := []string{}
@@ -315,18 +326,17 @@ func (w *worker) run(idx int, sc *scenario) *observed {
 		f.materialise(w.outDir)
 		names = append(names, f.Name)
 	}
-	var c core.Cache
-	var raw []byte // the tar bytes held under the key after the store
+	var raw, gz []byte // the tar bytes held under the key after the store
 	if sc.Cache == "http" {
 		w.mu.Lock()
 		w.plan = sc
 		w.mu.Unlock()
 		hc, err := cache.VerifNewHTTPCache(w.srv.URL, true, 0, 10*time.Second)
 		must(err)
-		c = hc
-		c.Store(w.target, key, names)
+		hc.Store(w.target, key, names)
 		w.mu.Lock()
-		gz, ok := w.blobs["/"+hexKey]
+		var ok bool
+		gz, ok = w.blobs["/"+hexKey]
 		w.mu.Unlock()
 		if ok {
 			ob.Stored = true
@@ -334,30 +344,21 @@ func (w *worker) run(idx int, sc *scenario) *observed {
 			must(err)
 			raw, err = io.ReadAll(zr)
 			must(err)
-			if strings.HasPrefix(sc.GetFault, "cut") {
-				cut := min(sc.GetCut, len(gz))
-				ob.tarCutValid = true
-				if zr, err := gzip.NewReader(bytes.NewReader(gz[:cut])); err == nil {
-					part, _ := io.ReadAll(zr)
-					ob.tarCut = len(part)
-				}
-			}
 		}
 	} else {
-		st, rt := w.commands(sc)
-		c = cache.VerifNewCmdCache(st, rt)
-		c.Store(w.target, key, names)
+		st, _ := w.commands(sc, whole)
+		cache.VerifNewCmdCache(st, "false").Store(w.target, key, names)
 		// the command (or what survives of it) may still be draining its stdin
 		p := filepath.Join(w.store, hexKey)
 		last, stable := int64(-2), 0
-		for i := 0; i < 400 && stable < 3; i++ {
+		for i := 0; i < 600 && stable < 4; i++ {
 			time.Sleep(5 * time.Millisecond)
 			sz := int64(-1)
 			if fi, err := os.Stat(p); err == nil {
 				sz = fi.Size()
 			}
-			if _, err := os.Stat(p + ".tmp"); err == nil && sc.StoreStyle != "atomic-head-fail" && sc.StoreStyle != "atomic" {
-				sz = -3 - int64(i) // a rename is still to come
+			if _, err := os.Stat(p + ".tmp"); err == nil && sc.StoreStyle == "pipe-atomic" {
+				sz = -3 - int64(i) // the rename is still to come
 			}
 			if sz == last {
 				stable++
@@ -382,8 +383,41 @@ func (w *worker) run(idx int, sc *scenario) *observed {
 		}
 		ob.Members = append(ob.Members, h.Name)
 	}
-	// retrieve into an empty output directory
+	for _, r := range sc.Retrs {
+		ob.R = append(ob.R, w.retrieve(sc, r, key, gz))
+	}
 	must(os.RemoveAll(w.outDir))
+	if sc.Cache == "cmd" {
+		os.Remove(filepath.Join(w.store, hexKey))
+		os.Remove(filepath.Join(w.store, hexKey+".tmp"))
+	}
+	return ob
+}
+
+// retrieve runs one Retrieve into an empty output directory and records what came back.
+func (w *worker) retrieve(sc *scenario, r retr, key, gz []byte) *retrObs {
+	ob := &retrObs{Disk: map[string]string{}}
+	var c core.Cache
+	if sc.Cache == "http" {
+		w.mu.Lock()
+		w.rplan = r
+		w.mu.Unlock()
+		hc, err := cache.VerifNewHTTPCache(w.srv.URL, true, 0, 10*time.Second)
+		must(err)
+		c = hc
+		if strings.HasPrefix(r.GetFault, "cut") && gz != nil {
+			cut := min(r.GetCut, len(gz))
+			if zr, err := gzip.NewReader(bytes.NewReader(gz[:cut])); err == nil {
+				part, _ := io.ReadAll(zr)
+				ob.tarCut = len(part)
+			}
+		}
+	} else {
+		_, rt := w.commands(sc, r)
+		c = cache.VerifNewCmdCache("", rt)
+	}
+	must(os.RemoveAll(w.outDir))
+	must(os.MkdirAll(w.outDir, 0o755)) // the output directory itself exists, and is empty
 	ob.Hit = c.Retrieve(w.target, key, nil)
 	ob.Complete = allHealthy(sc.Files)
 	for _, f := range sc.Files {
@@ -426,11 +460,6 @@ func (w *worker) run(idx int, sc *scenario) *observed {
 	}
 	if ob.Incomplete != "" {
 		ob.Complete = false
-	}
-	must(os.RemoveAll(w.outDir))
-	if sc.Cache == "cmd" {
-		os.Remove(filepath.Join(w.store, hexKey))
-		os.Remove(filepath.Join(w.store, hexKey+".tmp"))
 	}
 	return ob
 }
@@ -477,7 +506,8 @@ func fixedSets() [][]*tnode {
 		{dir("empty")},
 		{link("dangling", "nowhere"), link("up", "../t"), text("z", "zz")},
 		{dir("n", dir("n/m", text("n/m/deep", "deep"), dir("n/m/e")), text("n/top", "t")), file("k", 1024, 'k')},
-		{text("sub/x.txt", "in a subdirectory that is not itself an output"), text("y", "y")},
+		{text("sub/x.txt", "in a subdirectory that is not itself an output"), link("sub/l", "x.txt"), text("y", "y")},
+		{link("lone/l", "nowhere"), text("y", "y")}, // readTar does not create the parent of a symlink
 		{},
 	}
 }
@@ -569,31 +599,29 @@ func setSize(s []*tnode) int {
 func (sc *scenario) storeFaulty() bool {
 	return !allHealthy(sc.Files) || sc.PutFault != "" || sc.StoreStyle == "head-fail" || sc.StoreStyle == "atomic-head-fail"
 }
-func (sc *scenario) retrieveFaulty() bool {
-	return sc.GetFault != "" || sc.RetrCut >= 0 || sc.RetrExit != 0
-}
+func (r retr) faulty() bool { return r.GetFault != "" || r.RetrCut >= 0 || r.RetrExit != 0 }
 
-func (sc *scenario) coq(w *worker, ob *observed) string {
+func (sc *scenario) coq(w *worker, ob *observed, i int) string {
 	files := []string{}
 	for _, f := range sc.Files {
 		files = append(files, f.coq(w.outDir))
 	}
+	r, ro := sc.Retrs[i], ob.R[i]
 	if sc.Cache == "http" {
 		g := "GetOk"
 		switch {
-		case sc.GetFault == "status":
+		case r.GetFault == "status":
 			g = "GetStatus"
-		case strings.HasPrefix(sc.GetFault, "cut"):
-			g = lib.App("GetCut", lib.N(uint64(ob.tarCut)))
+		case strings.HasPrefix(r.GetFault, "cut"):
+			g = lib.App("GetCut", lib.N(uint64(ro.tarCut)))
 		}
-		return lib.App("CHttp", lib.List(files), lib.Bool(sc.PutFault == ""), g,
-			lib.Bool(ob.Stored), lib.N(uint64(ob.StoredLen)), lib.StrList(ob.Members), lib.Bool(ob.Hit), lib.List(ob.diskCoq))
+		return lib.App("CHttp", lib.Str(w.outDir), lib.List(files), lib.Bool(sc.PutFault == ""), g,
+			lib.Bool(ob.Stored), lib.N(uint64(ob.StoredLen)), lib.StrList(ob.Members), lib.Bool(ro.Hit), lib.List(ro.diskCoq))
 	}
-	whole := allHealthy(sc.Files) && (sc.StoreStyle == "plain" || sc.StoreStyle == "atomic" || sc.StoreStyle == "pipe" ||
-		sc.StoreStyle == "pipe-atomic" || sc.StoreStyle == "exec")
-	return lib.App("CCmd", lib.List(files), lib.Opt(ob.Stored, lib.N(uint64(ob.StoredLen))), lib.Bool(whole),
-		lib.Opt(sc.RetrCut >= 0, lib.N(uint64(max(sc.RetrCut, 0)))), lib.Bool(sc.RetrExit == 0),
-		lib.StrList(ob.Members), lib.Bool(ob.Hit), lib.List(ob.diskCoq))
+	all := allHealthy(sc.Files) && sc.StoreStyle != "head-fail" && sc.StoreStyle != "atomic-head-fail"
+	return lib.App("CCmd", lib.Str(w.outDir), lib.List(files), lib.Opt(ob.Stored, lib.N(uint64(ob.StoredLen))), lib.Bool(all),
+		lib.Opt(r.RetrCut >= 0, lib.N(uint64(max(r.RetrCut, 0)))), lib.Bool(r.RetrExit == 0),
+		lib.StrList(ob.Members), lib.Bool(ro.Hit), lib.List(ro.diskCoq))
 }
 
 func main() {
@@ -604,7 +632,8 @@ func main() {
 			"x every read-fault position (a missing output inserted at / substituted for each list position, an unarchivable socket at each position inside each directory output) " +
 			"x cache (httpCache against an in-process server; cmdCache with plain, tmp+mv, pipeline, pipeline+tmp+mv, exec'd and failing store commands) " +
 			"x transport faults (PUT aborted mid-body / refused; GET body cut at sampled offsets with Content-Length, chunked and close-delimited framing; non-200 status; " +
-			"retrieve command output cut at sampled offsets, non-zero exit). distinct = distinct (tree, cache, fault) triples; non-trivial = at least one fault injected and at least one readable output")
+			"retrieve command output cut at sampled offsets, non-zero exit). One evaluation = one store followed by one retrieve into an empty output directory; " +
+			"distinct = distinct (tree, cache, store fault, retrieve fault); non-trivial = at least one fault injected and at least one readable output")
 
 		root, err := os.MkdirTemp("", "c13-")
 		must(err)
@@ -619,7 +648,7 @@ func main() {
 			scs = generate(c)
 		}
 
-		nw := 8
+		nw := 6
 		workers := make([]*worker, nw)
 		for i := range workers {
 			workers[i] = newWorker(root, i)
@@ -635,7 +664,7 @@ func main() {
 					t0 := time.Now()
 					obs[i] = workers[wi].run(i, scs[i])
 					if os.Getenv("C13_TIMING") != "" {
-						fmt.Fprintf(os.Stderr, "T %s %s %s %d\n", scs[i].Cache, storeFaultName(scs[i]), retrFaultName(scs[i]), time.Since(t0).Milliseconds())
+						fmt.Fprintf(os.Stderr, "T %s %s %d %d\n", scs[i].Cache, storeFaultName(scs[i]), len(scs[i].Retrs), time.Since(t0).Milliseconds())
 					}
 				}
 			}(wi)
@@ -643,57 +672,62 @@ func main() {
 		wg.Wait()
 
 		for i, sc := range scs {
-			ob := obs[i]
 			w := workers[i%nw]
-			js := map[string]any{"scenario": sc, "observed": ob}
-			faulty := sc.storeFaulty() || sc.retrieveFaulty()
 			readable := false
 			for _, f := range sc.Files {
 				f.each(func(t *tnode) { readable = readable || t.Kind == "file" || t.Kind == "link" })
 			}
-			key := fmt.Sprintf("%v", mustJSON(sc))
-			c.Case(sc.coq(w, ob), js, key, faulty && readable)
-			c.Hist("cache", sc.Cache)
-			c.Hist("store_fault", storeFaultName(sc))
-			c.Hist("retrieve_fault", retrFaultName(sc))
-			c.HistN("tree_nodes", setSize(sc.Files))
-			c.Hist("outcome", outcome(ob))
+			c.Oracle()
+			if obs[i].Stored && sc.Cache == "http" && (sc.PutFault != "" || !allHealthy(sc.Files)) {
+				c.Fail("http-entry-left-by-failed-store", "the server holds an entry after a store that failed ("+storeFaultName(sc)+")",
+					map[string]any{"scenario": sc, "observed": obs[i]})
+			}
+			for ri, r := range sc.Retrs {
+				ob, ro := obs[i], obs[i].R[ri]
+				one := *sc
+				one.Retrs = []retr{r}
+				js := map[string]any{"scenario": &one, "observed": map[string]any{"stored": ob.Stored, "stored_len": ob.StoredLen,
+					"footer": ob.Footer, "members": ob.Members, "retrieve": ro}}
+				faulty := sc.storeFaulty() || r.faulty()
+				c.Case(sc.coq(w, ob, ri), js, keyOf(&one), faulty && readable)
+				c.Hist("cache", sc.Cache)
+				c.Hist("store_fault", storeFaultName(sc))
+				c.Hist("retrieve_fault", retrFaultName(r))
+				c.HistN("tree_nodes", setSize(sc.Files))
+				c.Hist("outcome", outcome(ro))
 
-			// ---- the property, directly on the implementation ----
-			c.Oracle()
-			if ob.Hit && !ob.Complete {
-				class := "hit-with-incomplete-outputs"
-				switch {
-				case sc.Cache == "http" && !allHealthy(sc.Files):
-					class = "http-hit-after-read-fault"
-				case sc.Cache == "http" && sc.PutFault != "":
-					class = "http-hit-after-put-fault"
-				case sc.Cache == "http" && sc.GetFault != "":
-					class = "http-hit-on-failed-get"
-				case sc.Cache == "cmd" && !allHealthy(sc.Files) && ob.Footer && !sc.retrieveFaulty() &&
-					sc.StoreStyle != "head-fail" && sc.StoreStyle != "atomic-head-fail":
-					// the store command received, after the read error, an archive that is closed
-					// with the end-of-archive marker and a clean end of input
-					class = "cmd-read-fault-archive-finished-with-footer"
-				case sc.Cache == "cmd" && sc.retrieveFaulty():
-					class = "cmd-hit-on-failed-retrieve"
-				case sc.Cache == "cmd":
-					class = "cmd-hit-after-failed-store"
+				// ---- the property, directly on the implementation ----
+				c.Oracle()
+				if ro.Hit && !ro.Complete {
+					class := "hit-with-incomplete-outputs"
+					switch {
+					case sc.Cache == "http" && !allHealthy(sc.Files):
+						class = "http-hit-after-read-fault"
+					case sc.Cache == "http" && sc.PutFault != "":
+						class = "http-hit-after-put-fault"
+					case sc.Cache == "http" && r.GetFault != "":
+						class = "http-hit-on-failed-get"
+					case sc.Cache == "cmd" && !allHealthy(sc.Files) && ob.Footer && !r.faulty() &&
+						sc.StoreStyle != "head-fail" && sc.StoreStyle != "atomic-head-fail":
+						// the store command received, after the read error, an archive that is closed
+						// with the end-of-archive marker and a clean end of input
+						class = "cmd-read-fault-archive-finished-with-footer"
+					case sc.Cache == "cmd" && r.faulty():
+						class = "cmd-hit-on-failed-retrieve"
+					case sc.Cache == "cmd":
+						class = "cmd-hit-after-failed-store"
+					}
+					c.Fail(class, fmt.Sprintf("%s cache: Retrieve reports a hit but %s (store fault: %s, retrieve fault: %s)",
+						sc.Cache, ro.Incomplete+unreadableNote(sc), storeFaultName(sc), retrFaultName(r)), js)
 				}
-				c.Fail(class, fmt.Sprintf("%s cache: Retrieve reports a hit but %s (store fault: %s, retrieve fault: %s)",
-					sc.Cache, ob.Incomplete+unreadableNote(sc), storeFaultName(sc), retrFaultName(sc)), js)
-			}
-			c.Oracle()
-			if ob.Hit && sc.Cache == "cmd" && sc.RetrExit != 0 {
-				c.Fail("cmd-hit-despite-failed-retrieve-command", "the retrieve command exited non-zero and Retrieve reports a hit", js)
-			}
-			c.Oracle()
-			if ob.Hit && sc.Cache == "cmd" && sc.RetrCut >= 0 && sc.RetrCut < ob.StoredLen {
-				c.Fail("cmd-hit-on-truncated-output", "the retrieve command's output ended before the end of the entry and Retrieve reports a hit", js)
-			}
-			c.Oracle()
-			if ob.Stored && sc.Cache == "http" && (sc.PutFault != "" || !allHealthy(sc.Files)) {
-				c.Fail("http-entry-left-by-failed-store", "the server holds an entry after a store that failed ("+storeFaultName(sc)+")", js)
+				c.Oracle()
+				if ro.Hit && sc.Cache == "cmd" && r.RetrExit != 0 {
+					c.Fail("cmd-hit-despite-failed-retrieve-command", "the retrieve command exited non-zero and Retrieve reports a hit", js)
+				}
+				c.Oracle()
+				if ro.Hit && sc.Cache == "cmd" && r.RetrCut >= 0 && r.RetrCut < ob.StoredLen {
+					c.Fail("cmd-hit-on-truncated-output", "the retrieve command's output ended before the end of the entry and Retrieve reports a hit", js)
+				}
 			}
 		}
 	})
@@ -706,13 +740,11 @@ func unreadableNote(sc *scenario) string {
 	return " [an output could not be read during the store]"
 }
 
-func mustJSON(v any) string {
+func keyOf(sc *scenario) string {
 	var b strings.Builder
-	fmt.Fprintf(&b, "%+v", v)
-	if sc, ok := v.(*scenario); ok {
-		for _, f := range sc.Files {
-			f.each(func(t *tnode) { fmt.Fprintf(&b, "|%s:%s:%d:%d:%s:%s", t.Kind, t.Name, t.Size, t.Byte, t.Text, t.Target) })
-		}
+	fmt.Fprintf(&b, "%s|%s|%s|%d|%+v", sc.Cache, sc.PutFault, sc.StoreStyle, sc.StoreHead, sc.Retrs)
+	for _, f := range sc.Files {
+		f.each(func(t *tnode) { fmt.Fprintf(&b, "|%s:%s:%d:%d:%s:%s", t.Kind, t.Name, t.Size, t.Byte, t.Text, t.Target) })
 	}
 	return b.String()
 }
@@ -740,21 +772,21 @@ func storeFaultName(sc *scenario) string {
 	return "none"
 }
 
-func retrFaultName(sc *scenario) string {
+func retrFaultName(r retr) string {
 	switch {
-	case sc.GetFault != "":
-		return "get-" + sc.GetFault
-	case sc.RetrCut >= 0 && sc.RetrExit != 0:
+	case r.GetFault != "":
+		return "get-" + r.GetFault
+	case r.RetrCut >= 0 && r.RetrExit != 0:
 		return "output-cut+exit"
-	case sc.RetrCut >= 0:
+	case r.RetrCut >= 0:
 		return "output-cut"
-	case sc.RetrExit != 0:
+	case r.RetrExit != 0:
 		return "exit"
 	}
 	return "none"
 }
 
-func outcome(ob *observed) string {
+func outcome(ob *retrObs) string {
 	switch {
 	case ob.Hit && ob.Complete:
 		return "hit-complete"
@@ -804,18 +836,25 @@ func cutOffsets(r *lib.Rng, n, count int, every bool) []int {
 }
 
 func blockOffsets(r *lib.Rng, n, count int, dense bool) []int {
-	set := map[int]bool{0: true, 1: true, n - 1: true, n - 512: true, n - 513: true, n - 1024: true, n - 1025: true, n - 511: true}
+	set := map[int]bool{}
+	edge := []int{0, n - 1, n - 512, n - 513, n - 1024, n - 1025}
+	lib.Shuffle(r, edge)
+	for i, e := range edge {
+		if dense || i < 2 {
+			set[e] = true
+		}
+	}
 	if dense {
 		for b := 0; b <= n; b += 64 {
 			set[b] = true
 		}
-	}
-	for b := 0; b <= n; b += 512 {
-		if dense || r.Chance(1, 2) {
+		for b := 0; b <= n; b += 512 {
 			set[b], set[b+1], set[b-1] = true, true, true
 		}
 	}
 	for i := 0; i < count; i++ {
+		b := r.Intn(max(n/512, 1)) * 512
+		set[b+lib.Pick(r, []int{-1, 0, 0, 1, 100, 511})] = true
 		set[r.Intn(max(n, 1))] = true
 	}
 	out := []int{}
@@ -831,9 +870,15 @@ func blockOffsets(r *lib.Rng, n, count int, dense bool) []int {
 func generate(c *lib.Ctx) []*scenario {
 	r := c.Rng.Fork()
 	var scs []*scenario
-	add := func(sc *scenario) { scs = append(scs, sc) }
+	add := func(sc *scenario) {
+		if sc.Retrs == nil {
+			sc.Retrs = []retr{whole}
+		}
+		scs = append(scs, sc)
+	}
 	sets := fixedSets()
-	for i, n := 0, c.Scale(12, 120); i < n; i++ {
+	nfixed := len(sets)
+	for i, n := 0, c.Scale(14, 150); i < n; i++ {
 		sets = append(sets, randomSet(r))
 	}
 	getFaults := []string{"cut-length", "cut-chunked", "cut-close"}
@@ -841,71 +886,68 @@ func generate(c *lib.Ctx) []*scenario {
 
 	// 0. the input that demonstrated the defect fixed by dde3306 (corpus/C13), on both caches
 	witness := []*tnode{text("a.txt", "a"), missing("b.txt"), text("c.txt", "c")}
-	add(&scenario{Cache: "http", Files: cloneSet(witness), RetrCut: -1, Why: "corpus: http store with an unreadable output"})
-	for _, st := range styles {
-		add(&scenario{Cache: "cmd", Files: cloneSet(witness), StoreStyle: st, RetrCut: -1, Why: "corpus witness through the command cache"})
-	}
+	add(&scenario{Cache: "http", Files: cloneSet(witness), Why: "corpus: http store with an unreadable output"})
 	// 0b. the same with enough data in front of the fault for the store command to be running
 	// (and, for a pipeline, to have started its children) when the fault is hit
 	big := []*tnode{file("big.bin", 300000, 'a'), missing("b.txt"), text("c.txt", "c")}
-	add(&scenario{Cache: "http", Files: cloneSet(big), RetrCut: -1, Why: "read fault after 300 kB"})
+	add(&scenario{Cache: "http", Files: cloneSet(big), Why: "read fault after 300 kB"})
 	for _, st := range styles {
+		add(&scenario{Cache: "cmd", Files: cloneSet(witness), StoreStyle: st, Why: "corpus witness through the command cache"})
 		for k := 0; k < c.Scale(1, 3); k++ {
-			add(&scenario{Cache: "cmd", Files: cloneSet(big), StoreStyle: st, RetrCut: -1, Why: "read fault after 300 kB: the store command is running"})
+			add(&scenario{Cache: "cmd", Files: cloneSet(big), StoreStyle: st, Why: "read fault after 300 kB: the store command is running"})
 		}
 	}
 
+	ncmd := 0
 	for si, s := range sets {
-		quickFull := si < len(fixedSets())
+		fixed := si < nfixed
 		// 1. HTTP: every read-fault position
-		for _, f := range faulted(s) {
-			add(&scenario{Cache: "http", Files: f, RetrCut: -1})
+		fs := faulted(s)
+		for _, f := range fs {
+			add(&scenario{Cache: "http", Files: f})
 		}
 		// 2. HTTP: healthy store, then every kind of transport fault
-		add(&scenario{Cache: "http", Files: cloneSet(s), RetrCut: -1})
-		add(&scenario{Cache: "http", Files: cloneSet(s), PutFault: "abort", RetrCut: -1})
-		add(&scenario{Cache: "http", Files: cloneSet(s), PutFault: "status", RetrCut: -1})
-		add(&scenario{Cache: "http", Files: cloneSet(s), GetFault: "status", RetrCut: -1})
+		add(&scenario{Cache: "http", Files: cloneSet(s), PutFault: "abort"})
+		add(&scenario{Cache: "http", Files: cloneSet(s), PutFault: "status"})
+		rs := []retr{whole, {GetFault: "status", RetrCut: -1}}
 		gzGuess := 60 + 12*setSize(s) // the real length is only known after the store; offsets beyond it mean "no cut"
-		for _, off := range cutOffsets(r, gzGuess+40, c.Scale(2, 10), c.Thor && quickFull) {
-			add(&scenario{Cache: "http", Files: cloneSet(s), GetFault: lib.Pick(r, getFaults), GetCut: off, RetrCut: -1})
+		for _, off := range cutOffsets(r, gzGuess+40, c.Scale(3, 12), c.Thor && fixed) {
+			rs = append(rs, retr{GetFault: lib.Pick(r, getFaults), GetCut: off, RetrCut: -1})
 		}
-		// 3. command cache: read faults through every store style (all positions for the fixed sets,
-		// a sample for the random ones in the quick tier)
-		fs := faulted(s)
+		add(&scenario{Cache: "http", Files: cloneSet(s), Retrs: rs})
+
+		// 3. command cache (each process it starts is expensive, so the quick tier samples):
+		// read faults through the store styles
 		for fi, f := range fs {
-			if !quickFull && !c.Thor && fi%3 != si%3 {
+			if !c.Thor && !((fixed && si < 4) || fi == si%len(fs)) {
 				continue
 			}
 			st := styles[(fi+si)%len(styles)]
-			add(&scenario{Cache: "cmd", Files: f, StoreStyle: st, RetrCut: -1})
-			if c.Thor {
+			add(&scenario{Cache: "cmd", Files: cloneSet(f), StoreStyle: st})
+			ncmd++
+			if c.Thor && fixed {
 				for _, st2 := range styles {
 					if st2 != st {
-						add(&scenario{Cache: "cmd", Files: cloneSet(f), StoreStyle: st2, RetrCut: -1})
+						add(&scenario{Cache: "cmd", Files: cloneSet(f), StoreStyle: st2})
 					}
 				}
 			}
 		}
 		// 4. command cache: healthy store, faults in the retrieve command; failing store commands
 		n := tarLen(s)
-		add(&scenario{Cache: "cmd", Files: cloneSet(s), StoreStyle: lib.Pick(r, styles), RetrCut: -1})
-		add(&scenario{Cache: "cmd", Files: cloneSet(s), StoreStyle: "plain", RetrCut: -1, RetrExit: 1})
-		for _, off := range blockOffsets(r, n, c.Scale(1, 6), c.Thor && quickFull) {
-			if !c.Thor && !quickFull && r.Chance(2, 3) {
-				continue
-			}
-			add(&scenario{Cache: "cmd", Files: cloneSet(s), StoreStyle: "plain", RetrCut: off, RetrExit: lib.Pick(r, []int{0, 0, 0, 2})})
+		rs = []retr{whole, {RetrCut: -1, RetrExit: 1}}
+		for _, off := range blockOffsets(r, n, c.Scale(1, 6), c.Thor && fixed) {
+			rs = append(rs, retr{RetrCut: off, RetrExit: lib.Pick(r, []int{0, 0, 0, 2})})
 		}
-		for _, off := range blockOffsets(r, n, 1, false) {
-			if !c.Thor && r.Chance(3, 4) {
-				continue
-			}
-			add(&scenario{Cache: "cmd", Files: cloneSet(s), StoreStyle: "head-fail", StoreHead: off, RetrCut: -1})
+		if c.Thor || fixed || si%2 == 0 {
+			add(&scenario{Cache: "cmd", Files: cloneSet(s), StoreStyle: lib.Pick(r, styles), Retrs: rs})
 		}
-		add(&scenario{Cache: "cmd", Files: cloneSet(s), StoreStyle: "head-fail", StoreHead: n + 100, RetrCut: -1})
-		add(&scenario{Cache: "cmd", Files: cloneSet(s), StoreStyle: "atomic-head-fail", StoreHead: n / 2, RetrCut: -1})
+		if c.Thor || si%3 == 0 {
+			offs := blockOffsets(r, n, 1, false)
+			add(&scenario{Cache: "cmd", Files: cloneSet(s), StoreStyle: "head-fail", StoreHead: lib.Pick(r, offs)})
+			add(&scenario{Cache: "cmd", Files: cloneSet(s), StoreStyle: lib.Pick(r, []string{"head-fail", "atomic-head-fail"}), StoreHead: lib.Pick(r, []int{n, n + 100, n / 2})})
+		}
 	}
-	c.Note("%d output sets (%d fixed), %d scenarios", len(sets), len(fixedSets()), len(scs))
+	c.Note("%d output sets (%d fixed), %d stores", len(sets), nfixed, len(scs))
 	return scs
 }
